@@ -39,7 +39,7 @@ man = dict(
              kind_free_text="Kani 0.68.0 -> CBMC 6.11.0 (cadical): bounded model checking of the compiled Rust code of /repo, harness crate /verif/harness (path dependency on /repo, rebuilt from the working tree on every run)"),
     ],
     checks=checks,
-    notes="Exit codes of ./check: 0 held / 1 VIOLATION (reproduced natively) / 2 inconclusive (timeout, OOM, vacuous harness, non-reproducing counterexample). Scratch build output lives in $VERIF_WORK (default /var/tmp/dsi-verif-work) and is removed at the end of each run.",
+    notes="Exit codes of ./check: 0 held / 1 VIOLATION (reproduced natively) / 2 inconclusive (timeout, OOM, vacuous harness, non-reproducing counterexample). Scratch build output lives in $VERIF_WORK (default /var/tmp/dsi-verif-work) and is removed at the end of each run. Tiers: quick (every change, <= ~10 min each on an idle 16-core machine), thorough (quick + every thorough-labelled harness that has been run to a PASS on the unchanged tree; up to hours), deep (--tier deep: additionally the registered harnesses listed in deep.txt, not yet run to a verdict; DESIGN.md 15.1). Run one check at a time: concurrent runs on this 62 GB machine without swap invite the kernel OOM killer (the driver then re-runs the aborted harness alone).",
     not_applicable=na,
 )
 (V / "MANIFEST.json").write_text(json.dumps(man, indent=1) + "\n")
